@@ -528,3 +528,63 @@ def replay(ctx, path):
     for v in verdicts:
         print("still fails:", v)
     return 1 if verdicts else 0
+
+
+def selftest(ctx):
+    """binding by corruption: a logged program with one altered value must be rejected by DFTrace, a dumped state with one
+    altered expected value must be rejected by the replay; the unaltered ones must be accepted"""
+    import copy
+    df = core.import_library()
+    rnd = random.Random(11)
+    traces = [T.gen_trace(df, rnd, k + 1, embed.DYADIC[0], ctx.scratch, 8, big=False) for k in range(12)]
+    traces = [t for t in traces if t["ev"]]
+    _, v0, _ = ctx.trace_check("DFTrace", "DFTrace.cfg", T.strip(traces), name="DFTrace_clean")
+    v0 = [v for v in v0 if not any(e["cond"] and "nvdim-is" in e["cond"] for e in traces[v[1] - 1]["ev"][v[2] - 1:v[2]])]
+    res = [("clean programs accepted by DFTrace", len(v0) == 0)]
+    for what in ("valid", "lo", "mesh"):
+        bad = copy.deepcopy(traces)
+        hit = None
+        for t in bad:
+            for l, e in enumerate(t["ev"]):
+                if e["outcome"] != "ok":
+                    continue
+                for o, rec in e["post"]:
+                    if what == "valid" and rec["k"] == "field":
+                        rec["valid"][0] = not rec["valid"][0]
+                        hit = (t["id"], l + 1)
+                    elif what == "lo" and rec["k"] == "region":
+                        rec["lo"][0] = [rec["lo"][0][0] + rec["lo"][0][1], rec["lo"][0][1]]
+                        hit = (t["id"], l + 1)
+                    elif what == "mesh" and rec["k"] == "field" and e["call"]["op"] in ("neg", "abs", "mulnum", "diff", "comp"):
+                        rec["vo"] = min(oo for oo, rr in e["post"] if rr["k"] == "field")  # the result shares a mask with an older field
+                        hit = (t["id"], l + 1) if rec["vo"] != o else None
+                    if hit:
+                        break
+                if hit:
+                    break
+            if hit:
+                break
+        if hit is None:
+            res.append((f"corruption '{what}' could be applied", what == "mesh"))
+            continue
+        _, v1, _ = ctx.trace_check("DFTrace", "DFTrace.cfg", T.strip(bad), name="DFTrace_bad_" + what)
+        res.append((f"program with one altered {what} rejected by DFTrace at the altered step", any((v[1], v[2]) == hit for v in v1)))
+    # spec -> code
+    r = ctx.model("MC_DF", "DF_d1.cfg", dump=True, coverage=False)
+    blocks = ctx.dump_blocks(r)
+    sts = [W.fastparse(b) for b in blocks if _depth(b) <= 1]
+    inits = {s["hist"][0]["x"]: s for s in sts if len(s["hist"]) == 1}
+    st = next(s for s in sts if len(s["hist"]) == 2 and s["hist"][1]["op"] == "selrange" and s["hist"][1]["outcome"] == "ok")
+    init = inits[st["hist"][0]["x"]]
+    part = Part()
+    replay_behaviour(df, [init, st], embed.DYADIC[0], part, ctx.scratch)
+    st2 = copy.deepcopy(st)
+    heap = W.heap_dict(st2["heap"])
+    oid = max(o for o, rec in heap.items() if rec["k"] == "field")
+    heap[oid]["valid"][0] = not heap[oid]["valid"][0]
+    st2["heap"] = heap
+    part2 = Part()
+    replay_behaviour(df, [init, st2], embed.DYADIC[0], part2, ctx.scratch)
+    res += [("dumped history accepted by the replay", not part["violations"]),
+            ("dumped history with one altered expected validity bit rejected", bool(part2["violations"]))]
+    return res
